@@ -742,7 +742,9 @@ fn pair(v: &[Sx]) -> Sx {
         let r = pipe(&[a("pipe"), a("run"), h.clone()]);
         match &r {
             Sx::L(x) if x[0].atom() == "ok" => l(vec![a("accepted"), x[3].clone(), x[4].clone()]),
-            Sx::L(x) => l(vec![a("rejected"), x[0].clone()]),
+            // a rejected check leaves its hook counters unread: hand them over (attribution of the recorded
+            // finding D9 only)
+            Sx::L(x) => l(vec![a("rejected"), x[0].clone(), hooks_take()]),
             _ => r,
         }
     };
